@@ -20,6 +20,28 @@ def main():
     mod = importlib.import_module(a.prop.lower())
     if a.replay:
         sys.exit(mod.replay(a.replay))
+    # a check must END, also on code that does not: when the whole run takes far longer than it ever
+    # does on the unchanged tree (quick: minutes), it stops and reports that the property is not shown
+    budget = int(os.environ.get('VERIF_BUDGET_S') or (2400 if a.tier == 'quick' else 6 * 3600))
+
+    def watchdog():
+        import faulthandler
+        import threading
+        import time as _t
+        _t.sleep(budget)
+        sys.stderr.write('check %s exceeded its time budget of %d s\n' % (a.prop, budget))
+        faulthandler.dump_traceback(file=sys.stderr)
+        try:
+            from framework import Run
+            r = Run(a.prop, a.tier)
+            r.broken.append('the check did not finish within %d s: printing does not terminate, or takes orders of '
+                            'magnitude longer than on the unchanged tree' % budget)
+            r.finish()
+            sys.stdout.flush()
+        finally:
+            os._exit(1)
+    import threading
+    threading.Thread(target=watchdog, daemon=True).start()
     try:
         rc = mod.main(a.tier)
     except SystemExit:
